@@ -23,6 +23,7 @@ Definition rbind {A B} (r : res A) (f : A -> res B) : res B :=
    3  DBNInference.__init__: a name without intra-slice edge ("CPD defined on variable not in the model")
    4  _update_belief: potential's scope is not inside the in-clique ("Factors defined on clusters ...")
    5  normalising constant is zero (pgmpy returns nan)
+   6  backward pass divides a non-zero message entry by a zero forward-potential entry (pgmpy: inf/nan)
    7  add_edge rejects the edge (self loop, backward edge, edge over several slices) *)
 
 (* ------------------------------------------------------------------ nodes, graph bookkeeping *)
@@ -252,6 +253,20 @@ Definition ratio_factors (message clique_potential : F) : list F :=
   | _, _ => []
   end.
 
+(* numpy divides: 0/0 is repaired to 0 but x/0 (x <> 0) is inf and poisons the answers with inf/nan.  That cannot
+   happen where the backward message is a marginal of (forward potential x ...); it does happen on the inputs of the
+   open findings (engine reset, interface evidence).  The model reports it as error 6 instead of inventing a value
+   (sufficient condition: the clique's own factor is not looked at). *)
+Definition ratio_finite (message clique_potential : F) : bool :=
+  match fvars message, fvars clique_potential with
+  | _ :: _, _ :: _ =>
+      forallb (fun x => if Qc_eq_dec x (Q2Qc 0) then true else false)
+        (fvals (fbuild Qc_sum_csr card (vunion (fvars message) (fvars clique_potential))
+                  (fun a => if Qc_eq_dec (feval Qc_sum_csr card clique_potential a : Qc) (Q2Qc 0)
+                            then (feval Qc_sum_csr card message a : Qc_sum_csr) else (Q2Qc 0 : Qc_sum_csr))))
+  | _, _ => true
+  end.
+
 (* backward_inference (= query): state = (update_factor at slice 1, interface evidence dict, answers) *)
 Definition bwd_state := (F * list (var * nat) * answers)%type.
 Definition fone0 : F := fone Qc_sum_csr card.
@@ -267,6 +282,7 @@ Definition bwd_step (pots : list F) (qs : queries) (ev : evidence) (st : res bwd
     let ev_t := match ev_t0 with [] => [] | _ :: _ => ev_t0 ++ idict' end in
     let fwd_f := fshift 1 (nth t pots fone0) in
     let mid := F1 ++ [nth (t - 1) pots fone0] ++ ratio_factors upd_f fwd_f in
+    if negb (ratio_finite upd_f fwd_f) then Err 6 else
     rbind (query_slice mid qs t 1 ev_t) (fun ans_t =>
       let mid' := if has_query qs t then F1 else mid in   (* same reset as in the forward pass *)
       let inphi := joint_marg mid' ev_t I0 in
@@ -280,6 +296,7 @@ Definition backward_inference (qs : queries) (ev : evidence) : res answers :=
       let out := fshift 0 upd_f in
       let pot0 := nth 0 pots fone0 in
       let fs := F0 ++ ratio_factors out pot0 in
+      if negb (ratio_finite out pot0) then Err 6 else
       rbind (query_slice fs qs 0 0 (get_ev ev 0 0)) (fun ans0 => Ok (ans ++ ans0)))).
 
 (* unrolled network: slice-0 CPDs, then the transition CPDs moved to slices (t-1, t) for t = 1..T *)
